@@ -546,8 +546,6 @@ def guarded(fn, *args):
         return "ok", None
     except _Timeout:
         return "timeout", None
-    except RecursionError as e:
-        return "raise", exc_info(e)
     except Exception as e:  # classified, never swallowed: compared between the two paths below
         return "raise", exc_info(e)
     finally:
@@ -622,8 +620,8 @@ def corpus_patterns():
     """key -> (pattern module text, own payload text or None, decreasing); deduplicated by pattern
     text. decreasing: the rewrite creates no operation, so applying it recursively terminates."""
     from xdsl.dialects import pdl
-    from xdsl.dialects.builtin import ModuleOp
-    from xdsl.dialects.builtin import StringAttr
+    from xdsl.dialects.builtin import ModuleOp, StringAttr
+    from xdsl.utils.exceptions import VerifyException
     from vt.corpus import chunks, make_ctx, parse_chunk
     out, seen = {}, set()
     strict_ctx = make_ctx(False)
@@ -653,7 +651,7 @@ def corpus_patterns():
             single = ModuleOp([p.clone()])
             try:
                 single.verify()
-            except Exception:
+            except VerifyException:
                 continue
             ptxt = str(single)
             decreasing = not any(isinstance(o, pdl.OperationOp) for o in rw.body.walk())
@@ -672,7 +670,7 @@ def corpus_patterns():
             if renamed:
                 try:
                     single.verify()
-                except Exception:
+                except VerifyException:
                     continue
                 rtxt = str(single)
                 if rtxt not in seen:
